@@ -59,7 +59,9 @@ IntPres ==
 FloatPres ==
     << [p |-> "f32", v |-> <<0, 0, 0, 0>>], [p |-> "f32", v |-> <<0, 0, 128, 63>>], [p |-> "f32", v |-> <<1, 0, 192, 127>>],
        [p |-> "f64", v |-> <<0, 0, 0, 0, 0, 0, 0, 0>>], [p |-> "f64", v |-> <<0, 0, 0, 0, 0, 0, 248, 63>>],
-       [p |-> "f64", v |-> <<1, 0, 0, 0, 0, 0, 248, 127>>] >>
+       [p |-> "f64", v |-> <<1, 0, 0, 0, 0, 0, 248, 127>>],
+       [p |-> "f64", v |-> <<0, 0, 0, 0, 0, 0, 0, 128>>], [p |-> "f32", v |-> <<0, 0, 0, 128>>],       \* negative zero
+       [p |-> "f64", v |-> <<154, 153, 153, 153, 153, 153, 217, 191>>] >>                              \* -0.4
 
 S(t) == [p |-> "str", v |-> t]
 BYT(t) == [p |-> "bytes", v |-> t]
@@ -67,7 +69,7 @@ BYT(t) == [p |-> "bytes", v |-> t]
 TextPres ==
     << S(<<>>), S(T_A), S(T_B), S(T_Q), S(<<97, 98>>), S(<<97, 98, 99>>), S(<<49>>), S(<<49, 50, 56>>), S(<<51, 48, 48>>),
        S(<<49, 46, 53>>), S(<<45, 49, 46, 50, 56>>), S(<<49, 50, 51, 52, 53, 46, 54, 55, 56>>), S(<<49, 46, 53, 48>>),
-       S(<<48>>), S(<<45, 48, 46, 48, 48>>), S(<<120, 121, 122>>), S(<<195, 169>>),
+       S(<<48>>), S(<<45, 48, 46, 48, 48>>), S(<<45, 48, 46, 52>>), S(<<45, 48, 46, 48, 48, 52>>), S(<<120, 121, 122>>), S(<<195, 169>>),
        S(<<49, 50, 51, 52, 53, 54, 55, 56, 57, 48, 49, 50>>),
        [p |-> "char", i |-> 65], [p |-> "char", i |-> 233], [p |-> "char", i |-> 128512],
        BYT(<<>>), BYT(<<65>>), BYT(<<255, 254>>), BYT(<<1, 2>>), BYT(<<1, 2, 3>>), BYT(<<195, 169>>),
